@@ -8,7 +8,7 @@
 (* `Pat*(k)` operators give the k-th canonical test pattern of a type: the   *)
 (* walker (WowmWire) draws field values from them by profile rotation.      *)
 (***************************************************************************)
-EXTENDS Naturals, Sequences, FiniteSets
+EXTENDS Naturals, Sequences, FiniteSets, IOUtils
 
 Byte == 0..255
 
@@ -78,7 +78,10 @@ DateTimePat(k) ==
 (* UTF-8 contents without NUL *)
 (* The sixth pattern is LONG (200 bytes): a size guard whose maximum was computed too small      *)
 (* rejects it, which strings of a few bytes never show.                                         *)
-LongStr == [j \in 1..200 |-> 97 + (j % 26)]
+\* (IOEnv.WOWM_LONGSTR overrides the length: C06 uses 256 / 257, the boundary of the login crate's
+\* CString cap, where the three generated reader copies must still consume the same bytes)
+LongLen == IF "WOWM_LONGSTR" \in DOMAIN IOEnv THEN atoi(IOEnv.WOWM_LONGSTR) ELSE 200
+LongStr == [j \in 1..LongLen |-> 97 + (j % 26)]
 StrPat(k) ==
     LET c == k % 6 IN
     CASE c = 0 -> <<>>
